@@ -122,6 +122,7 @@ structure IH (env : Env) (fuel : Nat) : Prop where
   callSub : ∀ id st, Pres st (callSub env fuel id st).2
   evalExpr : ∀ e st, Pres st (evalExpr env fuel e st).2
   evalSrc : ∀ s st, Pres st (evalSrc env fuel s st).2
+  fetchVar : ∀ s hq null st, Pres st (fetchVar env fuel s hq null st).2
   renderBlocks : ∀ bs st, Pres st (renderBlocks env fuel bs st).2
   withFrame : ∀ f body st, Pres st (withFrame env fuel f body st).2
   renderJoined : ∀ body st, Pres st (renderJoined env fuel body st).2
@@ -138,6 +139,7 @@ theorem ih_zero (env : Env) : IH env 0 where
   callSub := fun id st => by unfold callSub; exact Pres.refl _
   evalExpr := fun e st => by unfold evalExpr; exact Pres.refl _
   evalSrc := fun s st => by unfold evalSrc; exact Pres.refl _
+  fetchVar := fun s hq null st => by unfold fetchVar; exact Pres.refl _
   renderBlocks := fun bs st => by unfold renderBlocks; exact Pres.refl _
   withFrame := fun f body st => by unfold withFrame; exact Pres.refl _
   renderJoined := fun body st => by unfold renderJoined; exact Pres.refl _
@@ -201,6 +203,31 @@ theorem evalSrc_step (env : Env) (fuel : Nat) (ih : IH env fuel) (s : Src) (st :
   cases s with
   | name n => simp only [evalSrc]; exact ih.getitem _ _ _
   | expr e => simp only [evalSrc]; exact ih.evalExpr _ _
+
+@[simp] theorem insertVal_snd (env : Env) (hq : Bool) (null : Option Text) (v : Val) (st : St) :
+    (insertVal env hq null v st).2 = st := by
+  unfold insertVal
+  simp only
+  generalize (null.isSome && !truthy v && (match v with | .int _ => false | .bool _ => false | _ => true)) = c
+  cases c
+  · simp only [Bool.false_eq_true, if_false]
+    cases hq
+    · rfl
+    · simp only [if_true]
+      cases htmlQuote env (pieceOfVal v) <;> rfl
+  · rfl
+
+theorem fetchVar_step (env : Env) (fuel : Nat) (ih : IH env fuel) (s : Src) (hq : Bool) (null : Option Text) (st : St) :
+    Pres st (fetchVar env (fuel + 1) s hq null st).2 := by
+  simp only [fetchVar]
+  have h := ih.evalSrc s st
+  generalize evalSrc env fuel s st = res at h
+  obtain ⟨r, st'⟩ := res
+  cases r with
+  | ok v => simp only [insertVal_snd]; exact h
+  | raise e => exact h
+  | ret v => exact h
+  | oom => exact h
 
 theorem withFrame_step (env : Env) (fuel : Nat) (ih : IH env fuel) (f : Frame) (body : List Blk) (st : St) :
     Pres st (withFrame env (fuel + 1) f body st).2 := by
@@ -471,10 +498,21 @@ theorem inLoop_step (env : Env) (fuel : Nat) (ih : IH env fuel) (sv : SeqVars) (
   simp only [inLoop]
   split
   · exact (Pres.refl _).toTail
-  · apply key
+  · -- the item guard only appends an event to the trace
+    have hg : PresTail st (if env.guardOn = true then { st with trace := st.trace ++ [Event.gitem 0 i] } else st) := by
+      split
+      · exact (show Pres st _ from ⟨rfl, rfl⟩).toTail
+      · exact (Pres.refl _).toTail
+    generalize (if env.guardOn = true then { st with trace := st.trace ++ [Event.gitem 0 i] } else st) = st0 at hg ⊢
     split
-    · rename_i x fs h; exact prestail_settop st _ fs _ h
-    · exact (Pres.refl _).toTail
+    · split
+      · exact hg.trans (ih.inLoop _ _ _ _ _)
+      · exact hg
+    · apply key
+      refine hg.trans ?_
+      split
+      · rename_i x fs h; exact prestail_settop st0 _ fs _ h
+      · exact (Pres.refl _).toTail
 
 theorem renderBlk_step (env : Env) (fuel : Nat) (ih : IH env fuel) (b : Blk) (st : St) :
     Pres st (renderBlk env (fuel + 1) b st).2 := by
@@ -484,20 +522,20 @@ theorem renderBlk_step (env : Env) (fuel : Nat) (ih : IH env fuel) (b : Blk) (st
   | var src hq missing null =>
     unfold renderBlk
     dsimp only
-    have h := ih.evalSrc src st
-    generalize evalSrc env fuel src st = res at h
-    obtain ⟨r, st'⟩ := res
-    cases r with
-    | ok v =>
+    cases src with
+    | expr e => exact ih.fetchVar _ _ _ _
+    | name n =>
       dsimp only
-      repeat' split
-      all_goals exact h
-    | raise e =>
-      dsimp only
-      repeat' split
-      all_goals exact h
-    | ret v => exact h
-    | oom => exact h
+      split
+      · -- the full path: `name in md`, then `md[name]`
+        split
+        · split <;> exact ⟨rfl, rfl⟩
+        · exact ⟨rfl, rfl⟩
+        · rename_i v stack' tr hl
+          have hst : Pres st { st with stack := stack', trace := tr } :=
+            ⟨lookupStack_erase env _ _ _ _ _ _ hl, rfl⟩
+          exact hst.trans (ih.fetchVar _ _ _ _)
+      · exact ih.fetchVar _ _ _ _
   | call src =>
     unfold renderBlk
     dsimp only
@@ -656,6 +694,7 @@ theorem all_preserve (env : Env) : ∀ fuel, IH env fuel := by
       callSub := callSub_step env n ih
       evalExpr := evalExpr_step env n ih
       evalSrc := evalSrc_step env n ih
+      fetchVar := fetchVar_step env n ih
       renderBlocks := renderBlocks_step env n ih
       withFrame := withFrame_step env n ih
       renderJoined := renderJoined_step env n ih
